@@ -85,7 +85,7 @@ theorem abs_init : abs Impl.init = Spec.init := rfl
 theorem inv_init : Inv Impl.init := by
   have hs : StreamInv (streamInit 0 0 1 0) :=
     ⟨by intro g hg; simp [streamInit, CTree.toList, CTree.empty, Tree.toList] at hg,
-     by simp [Stream.allRecs, streamInit, CTree.empty, Tree.toList, RecsOk], rfl, rfl, rfl⟩
+     by simp [Stream.allRecs, streamInit, CTree.empty, Tree.toList, RecsOk], rfl, rfl, rfl, groupsOk_nil⟩
   refine ⟨by simp [CTree.toList, init_toList], rfl, ?_, ?_, rfl, rfl, rfl, rfl, rfl, by rw [abs_init]; exact Spec.valid_init⟩
   · intro s hs'
     have : s = streamInit 0 0 1 0 := by simpa [CTree.toList, init_toList] using hs'
@@ -116,7 +116,7 @@ theorem streamInv_congr {s s' : Stream} (hs : StreamInv s) (hg : s'.groups = s.g
   have hr : s'.allRecs = s.allRecs := by unfold Stream.allRecs; rw [hg]
   have hb : (absStream s').blocks = (absStream s).blocks := by unfold absStream; simp [hr]
   exact ⟨by rw [hg]; exact hs.groupsNe, by rw [hr]; exact hs.recs, by rw [hc, hr]; exact hs.count,
-         by rw [hl, hb]; exact hs.listSz, by rw [hg]; exact hs.gcount⟩
+         by rw [hl, hb]; exact hs.listSz, by rw [hg]; exact hs.gcount, by rw [hg]; exact hs.gbases⟩
 
 /-- replacing flags or padding of the last Stream: totals and Blocks stay -/
 theorem inv_of_meta {i i' : Index} (hi : Inv i) {front : List Stream} {last last' : Stream}
